@@ -350,6 +350,8 @@ def _run_sharded(pid, tier, seed, nshards):
 
 
 def _evidence(pid, tier, seed, mod, m, wall, nviol):
+    if os.environ.get("PYAB_NO_EVIDENCE"):  # set only by tools/mutants.py (runs against scratch copies)
+        return
     cov = {
         "evaluations": int(m["evaluations"]),
         "distinct_nontrivial": len(m["nontrivial"]),
